@@ -309,7 +309,14 @@ def build(t):
             elif kind == 'o':
                 nts.append(namedtype.OptionalNamedType(name, build(ft)))
             else:
-                nts.append(namedtype.DefaultedNamedType(name, build_value(ft, dflt)))
+                dv = build_value(ft, dflt)
+                if base_of(ft)[0] in ('seq', 'set') and all(x[0] == 'absent' for x in dflt[1]) and len(dflt[1]) % 2 == 0:
+                    # the empty record as schemas usually declare it: a bare instance of the record type (a value in
+                    # its own right when nothing in it is mandatory), not an object that went through clear()
+                    bare = build(ft)
+                    if bare.isValue:
+                        dv = bare
+                nts.append(namedtype.DefaultedNamedType(name, dv))
         cls = {'seq': univ.Sequence, 'set': univ.Set, 'choice': univ.Choice}[k]
         return cls(componentType=namedtype.NamedTypes(*nts))
     if k == 'seqof':
